@@ -318,6 +318,15 @@ def auto_resize_bound_cases(ctx):
                 cases.append((prog, ('>0' + '1b' * j) * 14, cf))
     return cases
 
+def partitioned_seq_cases(ctx):
+    """one user thread; every resize level goes through the partitioned multi-thread path (helper threads created by the library, scheduled between the user's operations)"""
+    cases = []
+    for cf in (('2', '8', 'o', '3', '0'), ('4', '8', 'o', '3', '0'), ('8', '8', 'o', '3', '0'), ('2', '8', 'c', '3', '0')):
+        for prog in ('A0A3A4A6A9Z3TZ1TZ3TL3XZ0T', 'A3A4A6Z2Z0TZ3Z1T', 'U0U3U8U9Z3CZ2L0NTZ0C'):
+            for j in ((0, 7, 30) if ctx.quick() else (0, 2, 4, 7, 12, 20, 30)):
+                cases.append((prog, ('>0' + '1b2c3d4e5f' * j) * 22, cf))
+    return cases
+
 def replay(ctx, rp):
     f = rp.get('failing_input') or {}
     impl = build(ctx)
